@@ -5,6 +5,8 @@ import Mathlib.Tactic.Linarith
 import Mathlib.Algebra.Order.Field.Basic
 import Mathlib.Algebra.Order.Ring.Abs
 import Mathlib.Algebra.BigOperators.Ring.List
+import Mathlib.Tactic.NormNum
+import Mathlib.Tactic.SplitIfs
 /-
 Helper lemmas for C15: the order-only `absv`/`nz` agree with `|·|`/`≠ 0` in a linearly ordered
 field, the left-fold sum is `List.sum`, and sums of `zipWith`s.
@@ -39,5 +41,225 @@ theorem foldl_add_eq (a : α) (l : List α) : l.foldl (· + ·) a = a + l.sum :=
 
 theorem vsum_eq_sum (l : List α) : vsum l = l.sum := by
   unfold vsum; rw [foldl_add_eq]; simp
+
+/-! ## helper lemmas of Props/C15 (list algebra, sums, bookkeeping of the call and of the solver caches) -/
+
+theorem all_zipWith_lt {f : α → α → α} {t : α} :
+    ∀ (a b : List α), (List.zipWith (fun x y => decide (f x y < t)) a b).all id = true →
+      ∀ (i : Nat) x y, a[i]? = some x → b[i]? = some y → f x y < t
+  | [], _, _, i, x, y, hx, _ => by simp at hx
+  | _ :: _, [], _, i, x, y, _, hy => by simp at hy
+  | p :: a, q :: b, h, i, x, y, hx, hy => by
+    simp only [List.zipWith_cons_cons, List.all_cons, id, Bool.and_eq_true, decide_eq_true_eq] at h
+    cases i with
+    | zero =>
+      simp only [List.getElem?_cons_zero, Option.some.injEq] at hx hy
+      subst hx; subst hy; exact h.1
+    | succ j =>
+      simp only [List.getElem?_cons_succ] at hx hy
+      exact all_zipWith_lt a b h.2 j x y hx hy
+
+theorem diffs_sum_le (t : α) : ∀ (a b : List α), a.length = b.length →
+    (∀ (i : Nat) x y, a[i]? = some x → b[i]? = some y → x - y < t) →
+    a.sum - b.sum ≤ a.length * t
+  | [], [], _, _ => by simp
+  | [], _ :: _, h, _ => by simp at h
+  | _ :: _, [], h, _ => by simp at h
+  | p :: a, q :: b, h, hd => by
+    have ih := diffs_sum_le t a b (by simpa using h) (fun i x y hx hy => hd (i + 1) x y (by simpa using hx) (by simpa using hy))
+    have h0 := hd 0 p q (by simp) (by simp)
+    simp only [List.sum_cons, List.length_cons, Nat.cast_add, Nat.cast_one]
+    linarith
+
+theorem others_sum_le (t : α) : ∀ (a b : List α), a.length = b.length →
+    (∀ (i : Nat) x y, a[i]? = some x → b[i]? = some y → x - y < t) →
+    ∀ (i : Nat) x y, a[i]? = some x → b[i]? = some y →
+      (a.sum - b.sum) - (x - y) + t ≤ a.length * t
+  | [], _, _, _, i, x, y, hx, _ => by simp at hx
+  | _ :: _, [], h, _, _, _, _, _, _ => by simp at h
+  | p :: a, q :: b, h, hd, i, x, y, hx, hy => by
+    have hd' : ∀ (i : Nat) x y, a[i]? = some x → b[i]? = some y → x - y < t :=
+      fun i x y hx hy => hd (i + 1) x y (by simpa using hx) (by simpa using hy)
+    have hlen : a.length = b.length := by simpa using h
+    cases i with
+    | zero =>
+      simp only [List.getElem?_cons_zero, Option.some.injEq] at hx hy
+      subst hx; subst hy
+      have := diffs_sum_le t a b hlen hd'
+      simp only [List.sum_cons, List.length_cons, Nat.cast_add, Nat.cast_one]
+      linarith
+    | succ j =>
+      simp only [List.getElem?_cons_succ] at hx hy
+      have ih := others_sum_le t a b hlen hd' j x y hx hy
+      have h0 := hd 0 p q (by simp) (by simp)
+      simp only [List.sum_cons, List.length_cons, Nat.cast_add, Nat.cast_one]
+      linarith
+
+theorem yEntry_mul_phi (phi zi Ki : α) (hd : 1 + phi * (Ki - 1) ≠ 0) :
+    yEntry phi zi Ki * phi = zi - xEntry phi zi Ki := by
+  unfold yEntry xEntry
+  have e : phi * Ki + (1 - phi) = 1 + phi * (Ki - 1) := by ring
+  rw [e]; field_simp; ring
+
+theorem vsub_vsub_cancel : ∀ (z s : List α), z.length = s.length → vsub z (vsub z s) = s
+  | [], [], _ => rfl
+  | [], _ :: _, h => by simp at h
+  | _ :: _, [], h => by simp at h
+  | a :: z, b :: s, h => by
+    have ih := vsub_vsub_cancel z s (by simpa using h)
+    unfold vsub at ih ⊢
+    simp only [List.zipWith_cons_cons, List.cons.injEq]
+    exact ⟨by ring, ih⟩
+
+theorem cached_l_eq : ∀ (z K : List α) (phi : α), z.length = K.length →
+    (∀ Ki ∈ K, 1 + phi * (Ki - 1) ≠ 0) →
+    (List.zipWith (yEntry phi) z K).map (· * phi) = vsub z (solverOut z K phi)
+  | [], [], _, _, _ => rfl
+  | [], _ :: _, _, h, _ => by simp at h
+  | _ :: _, [], _, h, _ => by simp at h
+  | zi :: z, Ki :: K, phi, h, hd => by
+    have ih := cached_l_eq z K phi (by simpa using h) (fun k hk => hd k (List.mem_cons_of_mem _ hk))
+    unfold vsub solverOut at ih ⊢
+    simp only [List.zipWith_cons_cons, List.map_cons, List.cons.injEq]
+    exact ⟨yEntry_mul_phi phi zi Ki (hd Ki List.mem_cons_self), ih⟩
+
+theorem reproduce_entry (A B ai bi : α) (hAB : A + B = 1) (hA : A ≠ 0) (hB : B ≠ 0) (ha : ai ≠ 0)
+    (hz : ai + bi ≠ 0) :
+    yEntry (B / (B + A)) (ai + bi) ((bi / B) / (ai / A)) * (B / (B + A)) = bi := by
+  have hBA : B + A = 1 := by rw [add_comm]; exact hAB
+  rw [hBA, div_one]
+  unfold yEntry
+  have h1 : (1 : α) - B = A := by rw [← hAB]; ring
+  have e : B * (bi / B / (ai / A)) + (1 - B) = A * (ai + bi) / ai := by
+    rw [h1]; field_simp; ring
+  rw [e]
+  have hne : A * (ai + bi) / ai ≠ 0 := div_ne_zero (mul_ne_zero hA hz) ha
+  field_simp
+
+theorem reproduce_lists (A B : α) (hAB : A + B = 1) (hA : A ≠ 0) (hB : B ≠ 0) :
+    ∀ (a b : List α), a.length = b.length → (∀ v ∈ a, v ≠ 0) →
+      (∀ p ∈ List.zip a b, p.1 + p.2 ≠ 0) →
+      (List.zipWith (yEntry (B / (B + A))) (List.zipWith (· + ·) a b)
+        (List.zipWith (fun bi ai => (bi / B) / (ai / A)) b a)).map (· * (B / (B + A))) = b
+  | [], [], _, _, _ => rfl
+  | [], _ :: _, h, _, _ => by simp at h
+  | _ :: _, [], h, _, _ => by simp at h
+  | ai :: a, bi :: b, h, ha, hz => by
+    have ih := reproduce_lists A B hAB hA hB a b (by simpa using h)
+      (fun v hv => ha v (List.mem_cons_of_mem _ hv))
+      (fun p hp => hz p (by simp only [List.zip_cons_cons]; exact List.mem_cons_of_mem _ hp))
+    simp only [List.zipWith_cons_cons, List.map_cons, List.cons.injEq]
+    refine ⟨reproduce_entry A B ai bi hAB hA hB (ha ai List.mem_cons_self) ?_, ih⟩
+    exact hz (ai, bi) (by simp)
+
+theorem vsub_add_cancel_left : ∀ (a b : List α), a.length = b.length →
+    vsub (List.zipWith (· + ·) a b) b = a
+  | [], [], _ => rfl
+  | [], _ :: _, h => by simp at h
+  | _ :: _, [], h => by simp at h
+  | x :: a, y :: b, h => by
+    have ih := vsub_add_cancel_left a b (by simpa using h)
+    unfold vsub at ih ⊢
+    simp only [List.zipWith_cons_cons, List.cons.injEq]
+    exact ⟨by ring, ih⟩
+
+theorem vsum_map_mul (k : α) (l : List α) : vsum (l.map (k * ·)) = k * vsum l := by
+  rw [vsum_eq_sum, vsum_eq_sum, List.sum_map_mul_left]; simp
+
+theorem normalize_scale (k : α) (hk : k ≠ 0) (mol : List α) :
+    normalize (mol.map (k * ·)) = normalize mol := by
+  unfold normalize
+  rw [vsum_map_mul, List.map_map]
+  apply List.map_congr_left
+  intro v _
+  simp only [Function.comp]
+  by_cases h : vsum mol = 0
+  · simp [h]
+  · field_simp
+
+theorem nz_scale (k : α) (hk : k ≠ 0) (F : α) : nz (k * F) = nz F := by
+  by_cases h : F = 0
+  · rw [(nz_false_iff F).mpr h, (nz_false_iff _).mpr (by rw [h, mul_zero])]
+  · rw [(nz_iff F).mpr h, (nz_iff _).mpr (mul_ne_zero hk h)]
+
+theorem activity_lists : ∀ (x gx gy : List α), gx.length = x.length → gy.length = x.length →
+    (∀ g ∈ gy, g ≠ 0) → vmul (vmul (List.zipWith (· / ·) gx gy) x) gy = vmul x gx
+  | [], [], [], _, _, _ => rfl
+  | [], _ :: _, _, h, _, _ => by simp at h
+  | [], [], _ :: _, _, h, _ => by simp at h
+  | _ :: _, [], _, h, _, _ => by simp at h
+  | _ :: _, _ :: _, [], _, h, _ => by simp at h
+  | xi :: x, a :: gx, b :: gy, h1, h2, hg => by
+    have ih := activity_lists x gx gy (by simpa using h1) (by simpa using h2)
+      (fun g hg' => hg g (List.mem_cons_of_mem _ hg'))
+    unfold vmul at ih ⊢
+    simp only [List.zipWith_cons_cons, List.cons.injEq]
+    refine ⟨?_, ih⟩
+    have hb : b ≠ 0 := hg b List.mem_cons_self
+    field_simp
+
+theorem rr_sums (phi : α) : ∀ (z K : List α), z.length = K.length →
+    (∀ Ki ∈ K, 1 + phi * (Ki - 1) ≠ 0) →
+    z.sum = (List.zipWith (fun zi Ki => zi / (1 + phi * (Ki - 1))) z K).sum
+        + phi * (List.zipWith (fun zi Ki => zi * (Ki - 1) / (1 + phi * (Ki - 1))) z K).sum ∧
+    (vmul K (List.zipWith (fun zi Ki => zi / (1 + phi * (Ki - 1))) z K)).sum =
+      (List.zipWith (fun zi Ki => zi / (1 + phi * (Ki - 1))) z K).sum
+        + (List.zipWith (fun zi Ki => zi * (Ki - 1) / (1 + phi * (Ki - 1))) z K).sum
+  | [], [], _, _ => by simp [vmul]
+  | [], _ :: _, h, _ => by simp at h
+  | _ :: _, [], h, _ => by simp at h
+  | zi :: z, Ki :: K, h, hd => by
+    have ih := rr_sums phi z K (by simpa using h) (fun k hk => hd k (List.mem_cons_of_mem _ hk))
+    have hne : 1 + phi * (Ki - 1) ≠ 0 := hd Ki List.mem_cons_self
+    unfold vmul at ih ⊢
+    simp only [List.zipWith_cons_cons, List.sum_cons]
+    constructor
+    · rw [ih.1]; field_simp; ring
+    · rw [ih.2]; field_simp; ring
+
+/-- a call that changes anything: non-empty feed and at least two chemicals -/
+def effective (c : CallIn α) : Bool := nz (vsum c.mol) && decide (1 < c.chems.length)
+
+/-- the remembered state after a history of calls -/
+def runState (p : Params α) (rr : List α → List α → α → Option α)
+    (solve : Option (Stored α) → Query α → List α)
+    (st : Option (Stored α)) (cs : List (CallIn α)) : Option (Stored α) :=
+  cs.foldl (fun s c => (call p rr solve s c).1) st
+
+theorem call_not_effective (p : Params α) (rr : List α → List α → α → Option α)
+    (solve : Option (Stored α) → Query α → List α) (st : Option (Stored α)) (c : CallIn α)
+    (h : effective c = false) :
+    (call p rr solve st c).1 = st ∧ (call p rr solve st c).2.path = .none := by
+  unfold effective at h
+  unfold call
+  simp [h]
+
+/-- every cache would load with the current indexer, and a loaded solver is bound to it -/
+def Bound (m : StreamM) : Prop :=
+  ∀ k, (m.cache k).args = m.imol ∧ ((m.cache k).value = none ∨ (m.cache k).value = some m.imol)
+
+theorem bound_init : Bound StreamM.init := by
+  intro k; cases k <;> exact ⟨rfl, Or.inl rfl⟩
+
+theorem bound_resetCache (m : StreamM) : Bound m.resetCache := by
+  intro k; cases k <;> exact ⟨rfl, Or.inl rfl⟩
+
+theorem bound_setPhases (m : StreamM) (c : Bool) (h : Bound m) : Bound (m.setPhases c) := by
+  unfold StreamM.setPhases
+  cases c with
+  | false => simpa using h
+  | true => simp only [if_true]; exact bound_resetCache _
+
+theorem cache_retrieve (c : CacheM) (i : Nat) (h : c.args = i ∧ (c.value = none ∨ c.value = some i)) :
+    c.retrieve.2 = i ∧ c.retrieve.1.args = i ∧ c.retrieve.1.value = some i := by
+  obtain ⟨ha, hv | hv⟩ := h <;> simp [CacheM.retrieve, hv, ha]
+
+/-- **sle_pure_solute.**  A pure solute goes entirely to the liquid above its melting point and
+entirely to the solid at or below it; no other entry moves. -/
+theorem sle_pure_solute (T Tm m : α) (liquid solid : List α) (s : Nat) :
+    (Tm < T → pureSolute T Tm liquid solid s m = (liquid.set s m, solid.set s 0)) ∧
+    (T ≤ Tm → pureSolute T Tm liquid solid s m = (liquid.set s 0, solid.set s m)) := by
+  unfold pureSolute
+  exact ⟨fun h => by simp [h], fun h => by simp [not_lt.mpr h]⟩
 
 end ThermoVerif.LLESLE
